@@ -384,9 +384,9 @@ class SplitIntoBins():
             In Python 2, if some bin is exhausted before the others,
             its content will be filled with ``None``.
         """
-        # no copy, because cur_context is copied during fill()
-        cur_context = self._cur_context
-        # cur_context = copy.deepcopy(self._cur_context)
+        # a copy, because compute() can be called again
+        # (and context.variable would be composed with itself)
+        cur_context = copy.deepcopy(self._cur_context)
         # update context.variable
         self._arg_var._update_context(cur_context,
                                       copy.deepcopy(self._arg_var.var_context))
